@@ -130,6 +130,8 @@ class Eval:
         if self.peek() == "&":
             self.eat(); return self.unary()
         v = self.atom()
+        while self.peek() == "[" and isinstance(v, list):     # postfix indexing CONST[i]
+            self.eat(); idx = self.expr(); self.eat("]"); v = v[idx]
         while self.peek() == "as":
             self.eat(); self.eat()
         return v
